@@ -580,6 +580,11 @@ class Instrument(ast.NodeTransformer):
         self.add_site(site, node.name, 'class')
         self.push('class')
         node.body = self.body(node.body)
+        mine = self.cur[1]
+        for st_, (nm, kind, sid) in list(self.sites.items()):
+            if sid == mine and nm in self.global_decl.get(mine, ()):
+                self.sites[st_] = (nm, kind, -2)             # `global D` in a class body: the binding is the module's
+                self.global_sites.add(st_)
         self.pop()
         return [node, ast.Assign([ast.Name(node.name, ast.Store())],
                                  call('T', const(site), ast.Name(node.name, ast.Load())))]
